@@ -21,10 +21,33 @@ package tokenizers
 //@     invariant line == L(seq(sc(scanner).content), old(cur(scanner))) && column == C(seq(sc(scanner).content), old(cur(scanner)))
 //@     decreases len(sc(scanner).content) - sc(scanner).position
 
+// the body of a comment tag: free text up to (not including) the next "}}" or the end of input; nil when it is empty
+//@ func (c *MustacheTokenizer) readCommentBody
+//@   requires c != nil && c.AbstractTokenizer != nil && isScanner(c.AbstractTokenizer.Scanner)
+//@   requires forall i int :: 0 <= i && i < len(sc(c.AbstractTokenizer.Scanner).content) ==> scalar(sc(c.AbstractTokenizer.Scanner).content[i])
+//@   ensures[C04,C12] isScanner(c.AbstractTokenizer.Scanner) && sc(c.AbstractTokenizer.Scanner).content == old(sc(c.AbstractTokenizer.Scanner).content)
+//@   ensures[C04] result != nil ==> spans(result.value, c.AbstractTokenizer.Scanner, old(cur(c.AbstractTokenizer.Scanner)), cur(c.AbstractTokenizer.Scanner)) &&
+//@       cur(c.AbstractTokenizer.Scanner) > old(cur(c.AbstractTokenizer.Scanner)) && result.typ == tokenizers.Comment
+//@   ensures[C04] result == nil ==> cur(c.AbstractTokenizer.Scanner) == old(cur(c.AbstractTokenizer.Scanner))
+//@   ensures[C12] result != nil ==> result.line == L(seq(sc(c.AbstractTokenizer.Scanner).content), old(cur(c.AbstractTokenizer.Scanner))) &&
+//@       result.column == C(seq(sc(c.AbstractTokenizer.Scanner).content), old(cur(c.AbstractTokenizer.Scanner)))
+//@   ensures[C10] result != nil ==> fresh(result)
+//@   assigns sc(c.AbstractTokenizer.Scanner).position, sc(c.AbstractTokenizer.Scanner).line, sc(c.AbstractTokenizer.Scanner).column
+//@   nopanic
+//@   loop 0
+//@     invariant isScanner(c.AbstractTokenizer.Scanner) && sc(c.AbstractTokenizer.Scanner).content == old(sc(c.AbstractTokenizer.Scanner).content)
+//@     invariant c.AbstractTokenizer == old(c.AbstractTokenizer) && c.AbstractTokenizer.Scanner == old(c.AbstractTokenizer.Scanner)
+//@     invariant min(old(sc(c.AbstractTokenizer.Scanner).position) + 1, len(sc(c.AbstractTokenizer.Scanner).content)) <= sc(c.AbstractTokenizer.Scanner).position &&
+//@         sc(c.AbstractTokenizer.Scanner).position <= len(sc(c.AbstractTokenizer.Scanner).content)
+//@     invariant nextSymbol == chr(seq(sc(c.AbstractTokenizer.Scanner).content), sc(c.AbstractTokenizer.Scanner).position)
+//@     invariant spans(builder(tokenValue), c.AbstractTokenizer.Scanner, old(cur(c.AbstractTokenizer.Scanner)), sc(c.AbstractTokenizer.Scanner).position)
+//@     invariant line == L(seq(sc(c.AbstractTokenizer.Scanner).content), old(cur(c.AbstractTokenizer.Scanner))) && column == C(seq(sc(c.AbstractTokenizer.Scanner).content), old(cur(c.AbstractTokenizer.Scanner)))
+//@     decreases len(sc(c.AbstractTokenizer.Scanner).content) - sc(c.AbstractTokenizer.Scanner).position
+//
 // ---- the mustache tokenizer's read step: literal text in "special" mode, tags through the abstract tokenizer (C03) ----
 //@ func (c *MustacheTokenizer) ReadNextToken
 //@   devirt tokenizers.ITokenizerState = *MustacheSpecialState
 //@   requires c != nil && c.AbstractTokenizer != nil && absOf(c) == c.AbstractTokenizer && absOf(c.AbstractTokenizer) == c.AbstractTokenizer
 //@   requires tokInv(c.AbstractTokenizer) && typeof(c.specialState) == typeid("*MustacheSpecialState") && c.specialState.(*MustacheSpecialState) != nil
-//@   assigns c.special, c.lastReader, c.AbstractTokenizer.LastTokenType, sc(c.AbstractTokenizer.Scanner).position, sc(c.AbstractTokenizer.Scanner).line, sc(c.AbstractTokenizer.Scanner).column
+//@   assigns c.special, c.lastReader, c.tagStart, c.comment, c.AbstractTokenizer.LastTokenType, sc(c.AbstractTokenizer.Scanner).position, sc(c.AbstractTokenizer.Scanner).line, sc(c.AbstractTokenizer.Scanner).column
 //@   nopanic
